@@ -28,3 +28,10 @@ CLAIMED['C05'] = dict(
          'regenerates origin + k*step with int32 wrap and the version-gated interval unit; lemmas: the signed-pack/unsigned-read/int64-arange/int32-wrap chain is the identity '
          'on every int32 axis with non-zero step (descending included). Float rounding of the sample axis is assumed exact (S3a).',
     note='S3(a) exact reals for the sample axis; reader fields outside _parse_* (structured flag, 2-D branch of __init__) not yet under contract')
+CLAIMED['C16'] = dict(
+    text='Proof over thread skeletons extracted from the real source on every run: inductive global invariant (Owicki-Gries, all steps of all threads), '
+         'file = header + blocks in order on return, workers parked and no step enabled after the return, deadlock freedom, decreasing variant; '
+         'symbolic item count N >= 1 and queue capacities >= 1 (not only 1..3 plane sets / capacities 1,2,16). A failing obligation is given a reachable '
+         'schedule by bounded search and the schedule is forced on the real pipeline.',
+    note='AX-QUEUE / Thread / atomic file writes assumed; granularity = queue operations, thread starts, file writes (as the property states)',
+    technique='Owicki-Gries invariant proof (z3) over a transition system extracted from the AST of the real thread functions')
